@@ -178,7 +178,7 @@ def make_blocks(indices, sectors, fill=("seq", 1), dtype="float64"):
                 a = a * 0
             store[s] = np.asarray(a, dtype=dtype)
         return {s: store[s] for s in sectors}
-    if fill[0] in ("rand", "rank1", "herm", "herm-anti", "herm-diag", "dominant", "posdef"):
+    if fill[0] in ("rand", "rank1", "herm", "herm-anti", "herm-diag", "csym", "cdiag", "dominant", "posdef"):
         # designed float data for the linear-algebra checks (values are not an enumerated dimension)
         rng = np.random.default_rng([int(fill[1]), 12345])
         store = {}
@@ -204,6 +204,9 @@ def make_blocks(indices, sectors, fill=("seq", 1), dtype="float64"):
                 for i in range(shp[0]):
                     b[i, (shp[0] - 1 - i) if fill[0] == "herm-anti" else i] = v[i]
                 a = b + b.conj().T
+            if fill[0] in ("csym", "cdiag") and len(shp) == 2 and shp[0] == shp[1]:
+                # square blocks equal to their own transpose without being Hermitian (complex data): symmetric / diagonal
+                a = (a + a.T) if fill[0] == "csym" else np.diag(np.diag(a))
             if fill[0] in ("herm", "dominant", "posdef") and len(shp) == 2 and shp[0] == shp[1]:
                 if fill[0] == "herm":
                     a = a + a.conj().T
@@ -277,6 +280,8 @@ def build(d):
     if d["ferm"]:
         kw = dict(kw)
         kw["phases"] = {s: -1 for s in d["phases"]}
+        if d.get("explicit_plus"):
+            kw["phases"].update({s: 1 for s in d["sectors"] if s not in kw["phases"]})
         kw["oddpos"] = parse_oddpos(d["oddpos"])
     x = klass(indices=indices, charge=d["charge"], blocks=blocks, **kw)
     for op in d.get("derive", ()):
